@@ -230,6 +230,43 @@ Proof.
   nra.
 Qed.
 
+(* ------------------------------------------------------------- qfac: sign of det is scale invariant *)
+Lemma det_div_cols M d : v1 d <> 0 -> v2 d <> 0 -> v3 d <> 0 ->
+  det (div_cols M d) = det M / (v1 d * v2 d * v3 d).
+Proof. intros. destruct M, d; unfold det, div_cols; cbn in *. field. repeat split; assumption. Qed.
+
+(* the sign decision of set_qform is taken on R = RZS / zooms; it is the sign of det RZS for ANY
+   positive column scaling (in exact arithmetic) — so it does not depend on the voxel sizes, however
+   small or large; in floats det(RZS) can under/overflow while det(R) cannot, which is why the code
+   must (and does) use R *)
+Lemma det_sign_scale_invariant M d : 0 < v1 d -> 0 < v2 d -> 0 < v3 d ->
+  (0 < det (div_cols M d) <-> 0 < det M) /\ (det (div_cols M d) < 0 <-> det M < 0)
+  /\ (det (div_cols M d) = 0 <-> det M = 0).
+Proof.
+  intros H1 H2 H3. rewrite det_div_cols by lra.
+  set (p := v1 d * v2 d * v3 d). assert (Hp : 0 < p) by (unfold p; repeat apply Rmult_lt_0_compat; assumption).
+  assert (Hi : 0 < / p) by (apply Rinv_0_lt_compat; assumption).
+  unfold Rdiv. repeat split; intros H.
+  - replace (det M) with (det M * / p * p) by (field; lra). apply Rmult_lt_0_compat; assumption.
+  - apply Rmult_lt_0_compat; assumption.
+  - replace (det M) with (det M * / p * p) by (field; lra). nra.
+  - nra.
+  - replace (det M) with (det M * / p * p) by (field; lra). rewrite H; ring.
+  - rewrite H; ring.
+Qed.
+
+Lemma set_qform_qfac_is_det_sign polar eigmax A :
+  0 < v1 (col_norms (lin A)) -> 0 < v2 (col_norms (lin A)) -> 0 < v3 (col_norms (lin A)) ->
+  h_qfac (set_qform_R polar eigmax A) = (if Rlt_dec 0 (det (lin A)) then 1 else -1).
+Proof.
+  intros H1 H2 H3. unfold set_qform_R; cbn [h_qfac].
+  destruct (det_sign_scale_invariant (lin A) (col_norms (lin A)) H1 H2 H3) as ((P1 & P2) & _).
+  destruct (Rlt_dec 0 (det (div_cols (lin A) (col_norms (lin A))))) as [L|L];
+    destruct (Rlt_dec 0 (det (lin A))) as [L'|L']; try reflexivity.
+  - exfalso; apply L', P1, L.
+  - exfalso; apply L, P2, L'.
+Qed.
+
 (* ------------------------------------------------------------- qform, ideal arithmetic *)
 Section QformIdeal.
   Variable polar : M3 -> M3.
